@@ -129,6 +129,11 @@ def step_workloads() -> dict:
         "ser-shared-opts-2": w_serialize("generic", "triple", S3B, "shared"),
         "parse-generic-flat": w_parse("generic", "flat", d3),
         "parse-generic-flat-g": w_parse("generic", "flat", dg),
+        # two GRAPHS streams with identical options but different graphs, same integration
+        "parse-rdflib-flat-g1": w_parse("rdflib", "flat", dg),
+        "parse-rdflib-flat-g2": w_parse("rdflib", "flat", fixed_stream("graph", S4B + S4[1:])),
+        "parse-generic-grouped-g2": w_parse("generic", "grouped",
+                                            fixed_stream("graph", S4B + S4[1:])),
         "parse-rdflib-flat": w_parse("rdflib", "flat", d4),
         "parse-generic-grouped": w_parse("generic", "grouped", d4),
         "parse-rdflib-grouped": w_parse("rdflib", "grouped", d3),
